@@ -67,6 +67,11 @@ var WideRunes = []rune{0xD7, 0xF7, 0xA0, 0x85, 0x2028, 0x2029, 0xFEFF, 0x301, 0x
 
 var identRunes = []rune("abcdefghijklmnopqrstuvwxyzABCDEFGHIJKLMNOPQRSTUVWXYZ___éßλ中Ж")
 
+// ReservedWords: names that mean something in a language spok is written in, embeds or sits next
+// to (Go, the shell, make, JSON, its own flags) and mean nothing special in a spokfile.
+var ReservedWords = []string{"go", "default", "type", "import", "range", "for", "if", "else", "func", "var", "const", "return", "map", "chan", "select", "case", "switch", "break", "continue", "defer", "goto", "package", "struct", "interface", "fallthrough",
+	"do", "done", "fi", "then", "elif", "esac", "in", "while", "until", "function", "time", "true", "false", "nil", "null", "all", "clean", "init", "fmt", "show", "vars", "version", "help", "force", "spokfile", "GLOBAL", "nan", "inf"}
+
 // Ident draws an identifier: letters (also non-ASCII) and '_' only — digits are not
 // identifier characters in spok. The bare keyword "task" is never produced.
 func Ident(t *rapid.T, label string) string {
@@ -86,6 +91,9 @@ func Ident(t *rapid.T, label string) string {
 	}
 	if s == "task" {
 		s = "tasks"
+	}
+	if rapid.IntRange(0, 14).Draw(t, label+"_reserved") == 0 {
+		s = rapid.SampledFrom(ReservedWords).Draw(t, label+"_reserved_word")
 	}
 	return s
 }
